@@ -669,6 +669,47 @@ theorem C09_done_le_flags_any_methods (ps : List Params) (cap : Nat) (ops : List
   unfold runSys
   exact ⟨this, by omega⟩
 
+/-- does the operation belong to screening method `j`? -/
+def ownedBy (j : Nat) : Op → Bool
+  | .screen i _ _ _ => i == j
+  | .update i _ => i == j
+  | _ => false
+
+/-- frame: what a screening method owns (candidate pool, in-pool flags, first-candidate date, counter,
+detection records, its ghost log) is touched by its own operations only — operations of another
+screening method, follow-up days and tagging surveys leave it exactly as it is.  (A code change that
+makes e.g. the detection records a class-level container breaks the correspondence of every
+two-method and every interleaved history.) -/
+theorem methods_independent (ps : List Params) (cap : Nat) (sy : Sys) (op : Op) (j : Nat)
+    (h : ownedBy j op = false) : (stepSys ps cap sy op).ms[j]? = sy.ms[j]? := by
+  cases op with
+  | screen i s r d =>
+    have hij : i ≠ j := by simpa [ownedBy] using h
+    cases hm : sy.ms[i]? with
+    | none => simp [stepSys, hm]
+    | some m => simp [stepSys, hm, List.getElem?_set, hij]
+  | update i d =>
+    have hij : i ≠ j := by simpa [ownedBy] using h
+    cases hp : ps[i]? with
+    | none => simp [stepSys, hp]
+    | some p =>
+      cases hm : sy.ms[i]? with
+      | none => simp [stepSys, hp, hm]
+      | some m => simp [stepSys, hp, hm, List.getElem?_set, hij]
+  | fuDay d outs => rfl
+  | tag s d => rfl
+
+/-- ... over whole histories: the state of method `j` after any history equals its state after the
+sub-history of its own operations as far as other methods' operations are concerned (they can be
+dropped one by one from the front of a block that contains none of `j`'s operations) -/
+theorem methods_independent_block (ps : List Params) (cap : Nat) (ops : List Op) (sy : Sys) (j : Nat)
+    (h : ∀ op ∈ ops, ownedBy j op = false) : (ops.foldl (stepSys ps cap) sy).ms[j]? = sy.ms[j]? := by
+  induction ops generalizing sy with
+  | nil => rfl
+  | cons op t ih =>
+    simp only [List.foldl_cons]
+    rw [ih _ (fun x hx => h x (by simp [hx])), methods_independent ps cap sy op j (h op (by simp))]
+
 /-! ### counterexamples (known findings) -/
 
 /-- two mobile screening methods (threshold 4, delay 1, no reporting delay) on one follow-up method -/
